@@ -4,6 +4,7 @@
   the image body.
 -/
 import SuplaVerif.Model.Update
+import SuplaVerif.Model.UpdHdr
 import SuplaVerif.Gen.Consts
 namespace SuplaVerif.C18
 open SuplaVerif
@@ -215,6 +216,191 @@ theorem c18_hash_exact (P : UpdParams) (u : Upd) (hi : Inv P.sec u) (hb : u.buff
   unfold hashedLen
   have := hi.pos
   constructor <;> omega
+
+
+/-! ### the response head -/
+open Bytes
+
+/-- decimal reading of a digit string, continuing from `acc` -/
+def decVal : Bytes → Nat → Nat
+  | [], acc => acc
+  | b :: r, acc => decVal r (acc * 10 + (b.toNat - 48))
+
+theorem decVal_mod (ds : Bytes) (a : Nat) : decVal ds (a % 2 ^ 32) % 2 ^ 32 = decVal ds a % 2 ^ 32 := by
+  induction ds generalizing a with
+  | nil => simp [decVal]
+  | cons b r ih =>
+    unfold decVal
+    rw [← ih (a % 2 ^ 32 * 10 + (b.toNat - 48)), ← ih (a * 10 + (b.toNat - 48))]
+    congr 2
+    omega
+
+theorem digit_not_eol (b : UInt8) (h : isDigit b = true) : isEol b = false := by
+  unfold isDigit at h; unfold isEol
+  have h1 : (48 : UInt8) ≤ b := by simpa using (Bool.and_eq_true_iff.mp h).1
+  cases hb : (b == 13 || b == 10)
+  · rfl
+  · exfalso
+    rcases Bool.or_eq_true_iff.mp hb with h2 | h2
+    · have : b = 13 := by simpa using h2
+      subst this; exact absurd h1 (by decide)
+    · have : b = 10 := by simpa using h2
+      subst this; exact absurd h1 (by decide)
+
+/-- **C18.H1 (the announced length is the digits of the Content-Length line)** a run of digits followed by a line
+    end is read as its decimal value (as a 32-bit pattern), whatever follows the line end -/
+theorem c18_digits_line (ds : Bytes) (hd : ∀ b ∈ ds, isDigit b = true) (e : UInt8) (he : isEol e = true)
+    (rest : Bytes) (acc : Nat) (hacc : acc < 2 ^ 32) :
+    digitsLoop (ds ++ e :: rest) acc = (decVal ds acc % 2 ^ 32, true) := by
+  induction ds generalizing acc with
+  | nil =>
+    show digitsLoop (e :: rest) acc = _
+    unfold digitsLoop
+    rw [if_pos he]; simp [decVal]; omega
+  | cons b r ih =>
+    have hb := hd b (by simp)
+    show digitsLoop (b :: (r ++ e :: rest)) acc = _
+    unfold digitsLoop
+    rw [if_neg (by rw [digit_not_eol b hb]; simp), if_pos hb]
+    rw [ih (fun x hx => hd x (by simp [hx])) _ (Nat.mod_lt _ (by decide))]
+    rw [decVal_mod]
+    rfl
+
+/-- **C18.H2 (nothing behind the line end is read)** for every prefix, the digit loop gives the same result whatever
+    follows the first line end: later header lines (also ones beginning with digits) cannot change the length -/
+theorem c18_digits_stop_at_line_end (pre : Bytes) (e : UInt8) (he : isEol e = true) (r1 r2 : Bytes) (acc : Nat) :
+    digitsLoop (pre ++ e :: r1) acc = digitsLoop (pre ++ e :: r2) acc := by
+  induction pre generalizing acc with
+  | nil =>
+    show digitsLoop (e :: r1) acc = digitsLoop (e :: r2) acc
+    unfold digitsLoop; rw [if_pos he, if_pos he]
+  | cons b r ih =>
+    show digitsLoop (b :: (r ++ e :: r1)) acc = digitsLoop (b :: (r ++ e :: r2)) acc
+    unfold digitsLoop
+    by_cases h1 : isEol b = true
+    · rw [if_pos h1, if_pos h1]
+    · rw [if_neg h1, if_neg h1]
+      by_cases h2 : isDigit b = true
+      · rw [if_pos h2, if_pos h2]; exact ih _
+      · rw [if_neg h2, if_neg h2]
+
+/-- strstr: the index found is an occurrence and the first one -/
+theorem findSub_spec (pat : Bytes) (s : Bytes) (i : Nat) (h : findSub pat s = some i) :
+    pat.isPrefixOf (s.drop i) = true ∧ ∀ j < i, pat.isPrefixOf (s.drop j) = false := by
+  induction s generalizing i with
+  | nil =>
+    unfold findSub at h
+    by_cases hp : pat.isEmpty = true
+    · rw [if_pos hp] at h
+      cases h
+      cases pat with
+      | nil => exact ⟨rfl, fun j hj => absurd hj (Nat.not_lt_zero _)⟩
+      | cons _ _ => cases hp
+    · rw [if_neg hp] at h; cases h
+  | cons b bs ih =>
+    unfold findSub at h
+    by_cases hp : pat.isPrefixOf (b :: bs) = true
+    · rw [if_pos hp] at h; cases h
+      exact ⟨hp, fun j hj => absurd hj (Nat.not_lt_zero _)⟩
+    · rw [if_neg hp] at h
+      cases hf : findSub pat bs with
+      | none => rw [hf] at h; cases h
+      | some k =>
+        rw [hf] at h
+        have hi : k + 1 = i := by simpa using h
+        subst hi
+        have := ih k hf
+        refine ⟨this.1, fun j hj => ?_⟩
+        cases j with
+        | zero => exact Bool.eq_false_iff.mpr hp
+        | succ j => exact this.2 j (by omega)
+
+/-- **C18.H3 (gate)** the head starts a download only with the status line, the content type and a Content-Length
+    present, the digit loop having reached the end of its line, and the accumulated length positive (as an int) and
+    within the limit of the flash map -/
+theorem c18_head_gate (H : HdrParams) (P : UpdParams) (map : Nat) (h : Bytes) (hs : (hdrScan H P map h).2 = true) :
+    sizeAccepted P map (hdrScan H P map h).1 = true ∧ (hdrScan H P map h).1 < 2 ^ 31 ∧
+    (findSub H.ok200 (cstr h)).isSome = true ∧ (findSub H.ctype (cstr h)).isSome = true ∧
+    ∃ i, findSub H.clen (cstr h) = some i ∧
+      (hdrScan H P map h).1 = (digitsLoop (h.drop (i + H.clen.length)) 0).1 ∧
+      (digitsLoop (h.drop (i + H.clen.length)) 0).2 = true := by
+  unfold hdrScan at hs ⊢
+  simp only at hs ⊢
+  by_cases hc : ((findSub H.ok200 (cstr h)).isSome && (findSub H.ctype (cstr h)).isSome) = true
+  · rw [if_pos hc] at hs ⊢
+    have hc' := Bool.and_eq_true_iff.mp hc
+    cases hf : findSub H.clen (cstr h) with
+    | none => rw [hf] at hs; cases hs
+    | some i =>
+      rw [hf] at hs
+      simp only at hs ⊢
+      have h1 := Bool.and_eq_true_iff.mp hs
+      have h2 := Bool.and_eq_true_iff.mp h1.1
+      exact ⟨h1.2, by simpa using h2.2, hc'.1, hc'.2, i, rfl, rfl, h2.1⟩
+  · rw [if_neg hc] at hs; cases hs
+
+/-- **C18.H4 (head to flash)** composition: whatever head made the device start downloading, and whatever the server
+    sends afterwards, every flash write lies inside the spare slot below the limit of the map and below the
+    accumulated length -/
+theorem c18_head_to_flash (H : HdrParams) (P : UpdParams) (hc : P.clamp = true) (hS : 0 < P.sec) (map slot : Nat)
+    (h : Bytes) (hs : (hdrScan H P map h).2 = true) (ns : List Nat) :
+    ∃ l, limitOf P map = some l ∧ (hdrScan H P map h).1 ≤ l ∧
+      ∀ w ∈ (feeds P (start slot (hdrScan H P map h).1) ns).2,
+        slot ≤ w.1 ∧ w.1 + w.2 ≤ slot + (hdrScan H P map h).1 ∧ w.1 + w.2 ≤ slot + l := by
+  obtain ⟨l, hl, _, hle⟩ := c18_size_gate P map _ (c18_head_gate H P map h hs).1
+  refine ⟨l, hl, hle, fun w hw => ?_⟩
+  have := (c18_writes_contained P hc hS ns (start slot (hdrScan H P map h).1) (start_inv P.sec hS _ _)).2.2.2.1 w hw
+  unfold Contained start at this
+  simp only at this
+  exact ⟨this.1, this.2, by omega⟩
+
+/-- collecting the head: it is complete only with CR LF CR LF at its end and at most maxHdr-1 bytes, and what was
+    collected is the bytes received so far, in order -/
+theorem collect_spec (m : Nat) (acc seg : Bytes) (k : Nat) :
+    (collect m acc seg k).1 = acc ++ seg.take ((collect m acc seg k).2.2 - k) ∧ k ≤ (collect m acc seg k).2.2 ∧
+    ((collect m acc seg k).2.1 = 1 → endsHead (collect m acc seg k).1 = true ∧ (collect m acc seg k).1.length ≤ m - 1) := by
+  induction seg generalizing acc k with
+  | nil => simp [collect]
+  | cons b rest ih =>
+    unfold collect
+    by_cases h1 : acc.length ≥ m - 1
+    · rw [if_pos h1]; simp
+    · rw [if_neg h1]
+      by_cases h2 : endsHead (acc ++ [b]) = true
+      · rw [if_pos h2]
+        refine ⟨by simp, by simp, fun _ => ⟨h2, by simp; omega⟩⟩
+      · rw [if_neg h2]
+        obtain ⟨a, b', c⟩ := ih (acc ++ [b]) (k + 1)
+        refine ⟨?_, by omega, c⟩
+        rw [a]
+        have : (collect m (acc ++ [b]) rest (k + 1)).2.2 - k = ((collect m (acc ++ [b]) rest (k + 1)).2.2 - (k + 1)) + 1 := by omega
+        rw [this]
+        simp
+
+/-- instantiation with the literals of /repo -/
+theorem c18_head_to_flash_repo (map slot : Nat) (h : Bytes) (hs : (hdrScan Gen.hdrParams Gen.updParams map h).2 = true)
+    (ns : List Nat) :
+    ∃ l, limitOf Gen.updParams map = some l ∧
+      ∀ w ∈ (feeds Gen.updParams (start slot (hdrScan Gen.hdrParams Gen.updParams map h).1) ns).2,
+        slot ≤ w.1 ∧ w.1 + w.2 ≤ slot + l := by
+  obtain ⟨l, a, _, c⟩ := c18_head_to_flash Gen.hdrParams Gen.updParams c18_repo_clamp.1 c18_repo_clamp.2.1 map slot h hs ns
+  exact ⟨l, a, fun w hw => ⟨(c w hw).1, (c w hw).2.2⟩⟩
+
+/- non-vacuity of the head theorems: an ordinary head announces 100 bytes and starts the download on a 512+512 map;
+    a following header line beginning with digits changes nothing; a length beyond 32 bits is taken modulo 2^32 (and
+    then still gated); digits followed by letters, or another status line, start nothing -/
+set_option maxRecDepth 8000 in
+example : hdrScan Gen.hdrParams Gen.updParams 2 [72, 84, 84, 80, 47, 49, 46, 49, 32, 50, 48, 48, 32, 79, 75, 13, 10, 67, 111, 110, 116, 101, 110, 116, 45, 84, 121, 112, 101, 58, 32, 97, 112, 112, 108, 105, 99, 97, 116, 105, 111, 110, 47, 111, 99, 116, 101, 116, 45, 115, 116, 114, 101, 97, 109, 13, 10, 67, 111, 110, 116, 101, 110, 116, 45, 76, 101, 110, 103, 116, 104, 58, 32, 49, 48, 48, 13, 10, 13, 10] = (100, true) := by decide
+set_option maxRecDepth 8000 in
+example : hdrScan Gen.hdrParams Gen.updParams 2 [72, 84, 84, 80, 47, 49, 46, 49, 32, 50, 48, 48, 32, 79, 75, 13, 10, 67, 111, 110, 116, 101, 110, 116, 45, 84, 121, 112, 101, 58, 32, 97, 112, 112, 108, 105, 99, 97, 116, 105, 111, 110, 47, 111, 99, 116, 101, 116, 45, 115, 116, 114, 101, 97, 109, 13, 10, 67, 111, 110, 116, 101, 110, 116, 45, 76, 101, 110, 103, 116, 104, 58, 32, 49, 48, 48, 13, 10, 57, 57, 57, 57, 57, 57, 57, 58, 32, 120, 13, 10, 13, 10] = (100, true) := by decide
+set_option maxRecDepth 8000 in
+example : hdrScan Gen.hdrParams Gen.updParams 2 [72, 84, 84, 80, 47, 49, 46, 49, 32, 50, 48, 48, 32, 79, 75, 13, 10, 67, 111, 110, 116, 101, 110, 116, 45, 84, 121, 112, 101, 58, 32, 97, 112, 112, 108, 105, 99, 97, 116, 105, 111, 110, 47, 111, 99, 116, 101, 116, 45, 115, 116, 114, 101, 97, 109, 13, 10, 67, 111, 110, 116, 101, 110, 116, 45, 76, 101, 110, 103, 116, 104, 58, 32, 52, 50, 57, 52, 57, 54, 55, 51, 57, 54, 13, 10, 13, 10] = (100, true) := by decide
+set_option maxRecDepth 8000 in
+example : hdrScan Gen.hdrParams Gen.updParams 2 [72, 84, 84, 80, 47, 49, 46, 49, 32, 50, 48, 48, 32, 79, 75, 13, 10, 67, 111, 110, 116, 101, 110, 116, 45, 84, 121, 112, 101, 58, 32, 97, 112, 112, 108, 105, 99, 97, 116, 105, 111, 110, 47, 111, 99, 116, 101, 116, 45, 115, 116, 114, 101, 97, 109, 13, 10, 67, 111, 110, 116, 101, 110, 116, 45, 76, 101, 110, 103, 116, 104, 58, 32, 49, 50, 97, 98, 13, 10, 13, 10] = (12, false) := by decide
+set_option maxRecDepth 8000 in
+example : hdrScan Gen.hdrParams Gen.updParams 2 [72, 84, 84, 80, 47, 49, 46, 49, 32, 52, 48, 52, 32, 78, 111, 116, 32, 70, 111, 117, 110, 100, 13, 10, 67, 111, 110, 116, 101, 110, 116, 45, 84, 121, 112, 101, 58, 32, 97, 112, 112, 108, 105, 99, 97, 116, 105, 111, 110, 47, 111, 99, 116, 101, 116, 45, 115, 116, 114, 101, 97, 109, 13, 10, 67, 111, 110, 116, 101, 110, 116, 45, 76, 101, 110, 103, 116, 104, 58, 32, 49, 48, 48, 13, 10, 13, 10] = (0, false) := by decide
+set_option maxRecDepth 8000 in
+example : (collect 700 [] ([72, 84, 84, 80, 47, 49, 46, 49, 32, 50, 48, 48, 32, 79, 75, 13, 10, 67, 111, 110, 116, 101, 110, 116, 45, 84, 121, 112, 101, 58, 32, 97, 112, 112, 108, 105, 99, 97, 116, 105, 111, 110, 47, 111, 99, 116, 101, 116, 45, 115, 116, 114, 101, 97, 109, 13, 10, 67, 111, 110, 116, 101, 110, 116, 45, 76, 101, 110, 103, 116, 104, 58, 32, 49, 48, 48, 13, 10, 13, 10] ++ [1, 2, 3]) 0).2 = (1, 80) := by decide
 
 /-- non-vacuity: a complete download of 5000 bytes in chunks 3000 + 6000 (server overruns) ends
     with exactly 5000 bytes written at the slot base -/
